@@ -13,10 +13,11 @@ EXTENDS Wallet
 
 CONSTANTS MaxTop, MaxNotes, MaxOps
 
-VARIABLES nextN, nextT, nextB, ops
-mvars == << wvars, nextN, nextT, nextB, ops >>
+VARIABLES nextN, nextT, nextB, ops,
+          pend      \* transactions the wallet created itself (C08), as the records a block would carry
+mvars == << wvars, nextN, nextT, nextB, ops, pend >>
 
-MCInit == Init /\ nextN = 1 /\ nextT = 1 /\ nextB = 1 /\ ops = 0
+MCInit == Init /\ nextN = 1 /\ nextT = 1 /\ nextB = 1 /\ ops = 0 /\ pend = {}
 
 \* notes created on the current chain and not spent on it
 ChainNotes   == UNION { OutNotes(e.tx) : e \in OnChain }
@@ -31,52 +32,80 @@ Menu == { << >> }                                                               
         \cup (IF nextN <= MaxNotes
               THEN { << [t |-> nextT, outs |-> << Out(nextN, "O", 7) >>, spends |-> << m >>] >> : m \in ChainNotes \ ChainSpent }
               ELSE {})
+        \* a transaction the wallet created is mined: its inputs exist unspent on the chain, it is not on the chain yet
+        \* and has not expired
+        \cup { << x >> : x \in { x \in pend : /\ SeqToSet(x.spends) \subseteq ChainNotes \ ChainSpent
+                                               /\ x.t \notin { e.tx.t : e \in OnChain }
+                                               /\ (txs[x.t].exp = Never \/ top + 1 <= txs[x.t].exp) } }
 
 EnvBlock == /\ top < MaxTop
             /\ \E btxs \in Menu :
                   /\ Block(top + 1, nextB, btxs)
-                  /\ nextT' = nextT + Len(btxs)
-                  /\ nextN' = nextN + Cardinality(UNION { OutNotes(btxs[i]) : i \in DOMAIN btxs })
-            /\ nextB' = nextB + 1 /\ UNCHANGED ops
+                  /\ nextT' = IF btxs # << >> /\ btxs[1].t = nextT THEN nextT + 1 ELSE nextT
+                  /\ nextN' = IF btxs # << >> /\ btxs[1].t = nextT THEN nextN + Cardinality(OutNotes(btxs[1])) ELSE nextN
+            /\ nextB' = nextB + 1 /\ UNCHANGED << ops, pend >>
 
-Op(A) == ops < MaxOps /\ A /\ ops' = ops + 1 /\ UNCHANGED << nextN, nextT, nextB >>
+Op(A) == ops < MaxOps /\ A /\ ops' = ops + 1 /\ UNCHANGED << nextN, nextT, nextB, pend >>
 
 WTip   == top > 0 /\ Op(UpdateTip(top))
 \* documented client protocol: the wallet learns the tip before it scans above it
-WScan  == \E from \in 1..top, n \in 1..top : from + n - 1 <= top /\ tip >= from + n - 1 /\ Op(Scan(from, n))
+WScan  == \E from \in 1..top, n \in 1..top : from + n - 1 <= top /\ tip >= from + n - 1 /\ \E O \in SUBSET ScanOpt(from, n) : Op(Scan(from, n, O))
 WTrunc == \E req \in 0..top, to \in 0..top, fork \in BOOLEAN : to <= req /\ tip # -1 /\ to <= tip /\ Op(Truncate(req, to, fork, to))
 
-MCNext == EnvBlock \/ WTip \/ WScan \/ WTrunc
+\* the wallet creates a transaction spending a note a proposal could select (its own, mined, counted), with or
+\* without change, expiring at once or never
+WCreate == /\ tip # -1 /\ ops < MaxOps /\ ops' = ops + 1
+           /\ \E n \in known, e \in {tip + 1, Never}, chg \in BOOLEAN :
+                 /\ txs[ninfo[n].t].mined # -1 /\ Counted(n, tip + 1)
+                 /\ (chg => nextN <= MaxNotes)
+                 /\ LET outs == IF chg THEN << [n |-> nextN, pool |-> "O", v |-> 2, acct |-> 1, int |-> TRUE] >> ELSE << >>
+                    IN  /\ Create(nextT, tip + 1, e, {n}, outs)
+                        /\ pend' = pend \cup { [t |-> nextT, outs |-> outs, spends |-> << n >>] }
+                 /\ nextT' = nextT + 1 /\ nextN' = nextN + (IF chg THEN 1 ELSE 0)
+           /\ UNCHANGED nextB
+
+MCNext == EnvBlock \/ WTip \/ WScan \/ WTrunc \/ WCreate
 MCSpec == MCInit /\ [][MCNext]_mvars
 
 --------------------------------------------------------------------------------------
 Mined(t) == t \in DOMAIN txs /\ txs[t].mined # -1
+PendingForever(n) == \E k \in links : k[1] = n /\ txs[k[2]].mined = -1 /\ txs[k[2]].exp = Never
 FullyScanned == top > 0 /\ scanned = 1..top /\ tip = top
 
 FreshEquivalence ==
     FullyScanned =>
         /\ { n \in known : Mined(ninfo[n].t) } = ChainNotes
         /\ \A e \in OnChain : OutNotes(e.tx) # {} => txs[e.tx.t].mined = e.h
-        /\ { k \in links : Mined(k[2]) } = UNION { { << m, e.tx.t >> : m \in Spends(e.tx) } : e \in OnChain }
+        \* ... except for a note a never-expiring pending transaction spends (the scanner stops looking for it)
+        /\ \A n \in ChainNotes : PendingForever(n) \/
+               { k[2] : k \in { k \in links : k[1] = n /\ Mined(k[2]) } } = { e.tx.t : e \in { e \in OnChain : n \in Spends(e.tx) } }
 
 MinedUnspent(p) == { n \in known : ninfo[n].pool = p /\ Mined(ninfo[n].t) /\ \A k \in links : k[1] = n => ~Mined(k[2]) }
+\* (a note that a never-expiring pending transaction of the wallet spends is out of the ledger whatever the chain does)
 Conservation ==
     FullyScanned => \A p \in {"S", "O"} :
-        Sum(MinedUnspent(p)) = Sum({ n \in ChainNotes : ninfo[n].pool = p }) - Sum({ n \in ChainNotes \cap ChainSpent : ninfo[n].pool = p })
+        Sum({ n \in MinedUnspent(p) : ~PendingForever(n) })
+          = Sum({ n \in ChainNotes : ninfo[n].pool = p /\ ~PendingForever(n) })
+            - Sum({ n \in ChainNotes \cap ChainSpent : ninfo[n].pool = p /\ ~PendingForever(n) })
 
 \* with every transaction mined at or below the tip the ledger is exactly the unspent mined notes
 LedgerIsUnspent ==
     (FullyScanned /\ \A t \in DOMAIN txs : Mined(t)) => \A p \in {"S", "O"} : Ledger(p) + LedgerDust(p) = Sum(MinedUnspent(p))
 
 OrphansExpire ==
-    \A n \in known : (~Mined(ninfo[n].t) /\ txs[ninfo[n].t].minobs + ExpiryDelta < tip + 1) => ~Counted(n, tip + 1)
+    \A n \in known : (~Mined(ninfo[n].t) /\ txs[ninfo[n].t].exp = -1 /\ txs[ninfo[n].t].minobs + ExpiryDelta < tip + 1) => ~Counted(n, tip + 1)
+\* a pending transaction of the wallet keeps its inputs out of the ledger exactly until it expires, and its change in
+PendingHolds ==
+    \A k \in links : (~Mined(k[2]) /\ txs[k[2]].exp # -1 /\ (txs[k[2]].exp = Never \/ txs[k[2]].exp >= tip + 1)) => ~Counted(k[1], tip + 1)
+PendingExpires ==
+    \A n \in known : (~Mined(ninfo[n].t) /\ txs[ninfo[n].t].exp >= 0 /\ txs[ninfo[n].t].exp < tip + 1) => ~Counted(n, tip + 1)
 
 \* a note is never known without its transaction, links only join known things
-Inv == TypeOK /\ FreshEquivalence /\ Conservation /\ LedgerIsUnspent /\ OrphansExpire
+Inv == TypeOK /\ FreshEquivalence /\ Conservation /\ LedgerIsUnspent /\ OrphansExpire /\ PendingHolds /\ PendingExpires
 
 \* re-scanning a range already scanned (on an unchanged chain) is a stutter on the ledger
 ScanIdempotent ==
     [][\A from \in 1..MaxTop, n \in 1..MaxTop :
-          ((from..(from + n - 1)) \subseteq scanned /\ from + n - 1 <= top /\ Scan(from, n))
+          ((from..(from + n - 1)) \subseteq scanned /\ from + n - 1 <= top /\ Scan(from, n, {}))
              => UNCHANGED << scanned, txs, known, links >>]_mvars
 =====================================================================================
